@@ -635,32 +635,53 @@ def _mangle_private_names(condition: Callable[..., Any], node: ast.AST) -> None:
         )
     ]
 
-    for private_node in private_nodes:
-        private = (
-            private_node.attr
-            if isinstance(private_node, ast.Attribute)
-            else private_node.id  # type: ignore
-        )
+    def private_name_of(private_node: ast.AST) -> str:
+        if isinstance(private_node, ast.Attribute):
+            return private_node.attr
 
-        if private in names:
-            # The name was not mangled (the condition was not written in the body of a class).
+        assert isinstance(private_node, ast.Name)
+        return private_node.id
+
+    # A mangled name is a prefix (``_`` + name of the class stripped of the leading underscores) + the private name.
+    # All the private names of the condition were mangled with the very same prefix: a private name which ends like
+    # another one (``__c`` and ``__b__c``) has several candidates among the names of the code, but only one prefix
+    # fits them all.
+    name_to_prefixes = dict()  # type: Dict[str, Set[str]]
+    for private_node in private_nodes:
+        private = private_name_of(private_node)
+
+        if private in names or private in name_to_prefixes:
+            # Either the name was not mangled (the condition was not written in the body of a class),
+            # or we have already seen it.
             continue
 
-        # A mangled name is ``_`` + name of the class stripped of the leading underscores + the private name.
-        candidates = [
-            name
+        name_to_prefixes[private] = {
+            name[: -len(private)]
             for name in names
             if name.endswith(private)
             and len(name) > len(private) + 1
             and name[0] == "_"
             and name[1] != "_"
-        ]
+        }
 
-        if len(candidates) == 1:
+    common = None  # type: Optional[Set[str]]
+    for prefixes in name_to_prefixes.values():
+        if prefixes:
+            common = set(prefixes) if common is None else common & prefixes
+
+    for private_node in private_nodes:
+        private = private_name_of(private_node)
+
+        prefixes = name_to_prefixes.get(private, set())
+        if common:
+            prefixes = prefixes & common
+
+        if len(prefixes) == 1:
+            mangled = next(iter(prefixes)) + private
             if isinstance(private_node, ast.Attribute):
-                private_node.attr = candidates[0]
+                private_node.attr = mangled
             else:
-                private_node.id = candidates[0]  # type: ignore
+                private_node.id = mangled  # type: ignore
 
 
 def repr_values(condition: Callable[..., bool], lambda_inspection: Optional[ConditionLambdaInspection],
